@@ -55,6 +55,57 @@ def hidden_random_calls(tree: ast.AST, imports: dict[str, str]):
     return out
 
 
+def is_set_term(t, depth=0) -> bool:
+    if depth > 20 or not isinstance(t, tuple) or not t:
+        return False
+    if t[0] == "set" or (t[0] == "comp" and t[1] == "set"):
+        return True
+    if t[0] == "call" and (fn_name(t[1]) or "") in ("set", "frozenset"):
+        return True
+    if t[0] == "op" and t[1] in ("|", "&", "-", "^"):
+        return is_set_term(t[2], depth + 1) and is_set_term(t[3], depth + 1)
+    if t[0] in ("phi", "ifexp"):
+        return is_set_term(t[2], depth + 1) or is_set_term(t[3], depth + 1)
+    if t[0] in ("loop", "carried"):
+        return is_set_term(t[2], depth + 1)
+    return False
+
+
+def ordered_set_uses(res):
+    """Places where the (hash-seed dependent) iteration order of a set becomes
+    observable: for loops, comprehension generators, enumerate/zip/list/tuple/iter/next."""
+    out = []
+
+    def unwrap(it):
+        while it[0] == "call" and (fn_name(it[1]) or "") in ("enumerate", "zip", "reversed",
+                                                              "iter") and it[2]:
+            for a in it[2]:
+                if is_set_term(a):
+                    return a
+            it = it[2][0]
+        return it
+
+    for lp in res.loops:
+        if lp["iter"] is not None and is_set_term(unwrap(lp["iter"])):
+            out.append(("for loop", lp["iter"], lp["node"]))
+    seen = set()
+    for t, node, cond in res.calls:
+        name = fn_name(t[1]) if t[0] == "call" else None
+        if name in ("list", "tuple", "enumerate", "next", "iter") and t[2] \
+                and is_set_term(unwrap(t[2][0])):
+            out.append((f"{name}()", t, node))
+    stack = [tt for tt, _, _ in res.calls] + [v for _, v, _, _ in res.stores] + [
+        r for _, r, _ in res.returns]
+    for root in stack:
+        for x in subterms(root):
+            if x[0] == "comp" and x[1] != "set" and id(x) not in seen:
+                seen.add(id(x))
+                for g_ in x[3]:
+                    if is_set_term(unwrap(g_[1])):
+                        out.append(("comprehension", x, None))
+    return out
+
+
 def _imports_of(tree):
     imp = {}
     for st in ast.walk(tree):
@@ -80,6 +131,8 @@ def check(ctx):
                    "(branch-definite assignment with guard correlation).")
     ctx.rule("R5", "all per-chain work is vmapped over axis 0; only chain-independent "
                    "arguments are broadcast.")
+    ctx.rule("R7", "no value in the sampling path depends on the iteration order of a set "
+                   "(hash-seed dependent between processes).")
     ctx.rule("R6", "the engine starts from the jittered states when jitter functions "
                    "exist, else from the states as set; replicate vs. per-chain states.")
     ctx.trust(LIB_FACTS["keys"], LIB_FACTS["vmap"], LIB_FACTS["scan"])
@@ -157,6 +210,35 @@ def check(ctx):
     ctl = hidden_random_calls(tree, _imports_of(tree))
     ctx.require_min("positive control of the hidden-randomness matcher", len(ctl), 3)
     ctx.extra["hidden_randomness_positive_control"] = [h[0] for h in ctl]
+
+    # ------------------------------------------------------------------ R7
+    from ..core.loader import FunctionInfo, ModuleInfo
+    nf = 0
+    for q, fi in sorted(repo.functions.items()):
+        if fi.module.name not in SAMPLING_MODULES or isinstance(fi.node, ast.Lambda):
+            continue
+        nf += 1
+        res = evaluate(repo, fi)
+        uses = ordered_set_uses(res)
+        uniq = {(k, pretty(t)[:100]) for k, t, _ in uses}
+        if not uses:
+            ctx.ob("C10.R7", fi, "no value depends on the iteration order of a set",
+                   True, nontrivial=False)
+        for kind, t in sorted(uniq):
+            node = next((nd for k, tt, nd in uses if k == kind and nd is not None), None)
+            ctx.ob("C10.R7", fi, "no value depends on the iteration order of a set (string "
+                                 "hashing is randomised per process, so the order differs "
+                                 "between two runs with the same seed)", False,
+                   detail=f"{kind} over {t}", node=node, stmt=f"set order: {kind} {t}")
+    ctx.require_min("functions scanned for set-order dependence", nf, 150)
+    fx2 = os.path.join(os.path.dirname(os.path.dirname(__file__)), "fixtures",
+                       "set_iteration.py")
+    src2 = open(fx2).read()
+    t2 = ast.parse(src2)
+    fmod = ModuleInfo("lsa_fixture", "fixtures/set_iteration.py", fx2, src2, t2, repo)
+    ffi = FunctionInfo("lsa_fixture.ordered_uses", t2.body[0], fmod)
+    ctl2 = ordered_set_uses(evaluate(repo, ffi))
+    ctx.require_min("positive control of the set-iteration matcher", len(ctl2), 3)
 
     # ------------------------------------------------------------------ R3
     eb = repo.cls("liesel.goose.builder.EngineBuilder")
@@ -273,7 +355,8 @@ def check(ctx):
             res = evaluate(repo, fi)
             for t, node, cond in res.calls:
                 f = t[1]
-                if f[0] == "a" and f[1] == ("a", n("self"), ks_field) and f[2] in EVENTS:
+                if f[0] == "a" and f[1] in (("a", n("self"), ks_field),
+                                            n("kernel_sequence")) and f[2] in EVENTS:
                     if fi.name != "_sample_many":  # already under the outer vmap
                         raw += 1
                         ctx.ob("C10.R5", fi, f"kernel-sequence call {f[2]} is vmapped over "
